@@ -102,6 +102,19 @@ def make_function_fn(stem, cls):
               types=types, calls=calls, members=ls.LMEMBERS, opaque=ls.LOPAQUE, ret='struct nv_lfun2')
 
 
+def function_ctor_fn():
+    import linear_spec as ls
+    types = [(r'^(::)?(nano::)?linear::function_t$', 'struct nv_fobj'), (r'^(::)?nano::function_t$', 'struct nv_opaque'), (r'^nano::(convexity|smoothness)$', 'int32_t'),
+             (r'accumulator', 'struct nv_opaque')] + ls.LTYPES
+    calls = [(r'^isize\|', 'nv_isize_of({&0})'), (r'^tsize\|', 'nv_tsize_of({&0})'),
+             (r'^ctor\|nano::function_t\|', 'nv_fobj_base(self, {1})'), (r'^ctor\|std::vector<nano::linear::accumulator_t>\|', 'nv_opaque_value()')]
+    members = [(r'^convex\|nano::loss_t', 'nv_loss_is_convex'), (r'^smooth\|nano::loss_t', 'nv_loss_is_smooth'),
+               (r'^convex\|', 'nv_fobj_convex({self}, {0})'), (r'^smooth\|', 'nv_fobj_smooth({self}, {0})'), (r'^strong_convexity\|', 'nv_fobj_sconv({self}, {0})'),
+               (r'^concurrency\|', '@nondet')]
+    return Fn('lfunction_ctor', 'src/linear/function.cpp', 'function_t', flt='linear::function_t::function_t', kinds=('CXXConstructorDecl',), select=NPARAMS(4),
+              self_struct='struct nv_fobj', types=types, calls=calls, members=members, opaque=ls.LOPAQUE + [r'accumulator'], ref_member_pointers=True)
+
+
 def make_x0_fn():
     import linear_spec as ls
     types = [(ls.T1, 'struct nv_xt'), (ls.T2, 'struct nv_xt'), (r'^std::any$', 'struct nv_xany'), (r'^(nano::)?(linear::)?result_t$', 'struct nv_xresult'),
@@ -239,6 +252,7 @@ def targets(tier):
     EN = [('src/linear.cpp', 'nano::scaling_type')]
     lin = [Target('linear_do_predict', linear_predict_fns, LP, enforce='linear_do_predict', enums=EN, loops=1),
            Target('linear_make_x0', lambda: [make_x0_fn()], LP, enforce='linear_make_x0', enums=EN)]
+    lin.append(Target('lfunction_ctor', lambda: [function_ctor_fn()], LP, enforce='lfunction_ctor', enums=EN + [('src/linear/function.cpp', 'nano::convexity'), ('src/linear/function.cpp', 'nano::smoothness')]))
     lin += [Target(f'{stem}_make_function', (lambda stem=stem, cls=cls: [make_function_fn(stem, cls)]), LP, enforce=f'{stem}_make_function', enums=EN)
             for stem, cls in MF_CLASSES]
     lin.append(Target('linear_fit_tuned', tuned_fns, 'specs/C11/tuned.h', enforce='linear_fit_tuned', enums=EN,
